@@ -78,6 +78,7 @@ fn main() {
     let code = match id.as_str() {
         "C01" | "ANY" => check::c01::run(&ctx),
         "C02" => check::c02::run(&ctx),
+        "C04" => check::c04::run(&ctx),
         "C05" => check::hon::run_c05(&ctx),
         "C07" => check::hon::run_c07(&ctx),
         "C08" => check::c08::run(&ctx),
